@@ -773,3 +773,96 @@ def check_zero_is_a_value(c: Check, rule: str, module_names, floor: int, what: s
     if sorted(h[1] for h in got) != want:
         raise AnalysisError('%s: positive control of zero-is-a-value failed: reported lines %s, expected %s' % (
             rule, sorted(h[1] for h in got), want))
+
+
+# ------------------------------------------------------------------ STATE: no container shared by all instances is written
+
+_MUTATORS = ('append', 'add', 'update', 'setdefault', 'extend', 'insert', 'pop', 'clear', 'remove', 'popitem', 'discard')
+
+
+def shared_class_state_writes(ix: Index, modules) -> Tuple[int, List[Tuple[str, int, str, str]]]:
+    """(number of classes looked at, [(relpath, line, method key, container)]): a mutable container bound in a CLASS
+    body (one object for all instances, of this class and of every sub class, for the life of the process) that a
+    method changes - through self, cls or the class name.  Whatever is stored there by one object (one phase, one
+    case, one suite) is found by all others."""
+    n_cls = 0
+    hits = []
+    for m in modules:
+        for cd in m.all_classes:
+            n_cls += 1
+            # containers of this class and of its base classes in the repository
+            owners = {}
+            for k in [cd] + [b for b in ix.mro(cd)[1:] if isinstance(b, ClassDef)]:
+                for st in k.node.body:
+                    tg = val = None
+                    if isinstance(st, ast.Assign) and len(st.targets) == 1 and isinstance(st.targets[0], ast.Name):
+                        tg, val = st.targets[0].id, st.value
+                    elif isinstance(st, ast.AnnAssign) and isinstance(st.target, ast.Name) and st.value is not None:
+                        tg, val = st.target.id, st.value
+                    if tg is None or tg in owners:
+                        continue
+                    if isinstance(val, (ast.Dict, ast.List, ast.Set, ast.ListComp, ast.DictComp, ast.SetComp)) or (
+                            isinstance(val, ast.Call) and isinstance(val.func, ast.Name)
+                            and val.func.id in ('dict', 'list', 'set', 'defaultdict', 'OrderedDict')):
+                        owners[tg] = k
+            if not owners:
+                continue
+            for f in cd.methods.values():
+                own_attrs = set()
+                for n in walk_own(f.node):
+                    # an instance attribute of the same name assigned in this class shadows the class-level one
+                    pass
+                for n in walk_own(f.node):
+                    a = None
+                    if isinstance(n, (ast.Assign, ast.AugAssign, ast.Delete)):
+                        tgts = n.targets if isinstance(n, (ast.Assign, ast.Delete)) else [n.target]
+                        for t_ in tgts:
+                            if isinstance(t_, ast.Subscript) and isinstance(t_.value, ast.Attribute):
+                                a = t_.value
+                    elif isinstance(n, ast.Call) and isinstance(n.func, ast.Attribute) and n.func.attr in _MUTATORS \
+                            and isinstance(n.func.value, ast.Attribute):
+                        a = n.func.value
+                    if a is None or a.attr not in owners or not isinstance(a.value, ast.Name):
+                        continue
+                    recv = a.value.id
+                    via_class = recv in ('cls',) or any(recv == k.name for k in [cd] + [b for b in ix.mro(cd)[1:]
+                                                                                         if isinstance(b, ClassDef)])
+                    via_self = recv == f.self_name and not _instance_attr_assigned(cd, ix, a.attr)
+                    if via_class or via_self:
+                        hits.append((m.relpath, n.lineno, f.key, '%s.%s' % (owners[a.attr].name, a.attr)))
+    return n_cls, sorted(set(hits))
+
+
+def _instance_attr_assigned(cd: ClassDef, ix: Index, attr: str) -> bool:
+    for k in [cd] + [b for b in ix.mro(cd)[1:] if isinstance(b, ClassDef)]:
+        for f in k.methods.values():
+            for n in walk_own(f.node):
+                if isinstance(n, (ast.Assign, ast.AnnAssign)):
+                    tgts = n.targets if isinstance(n, ast.Assign) else [n.target]
+                    for t_ in tgts:
+                        if isinstance(t_, ast.Attribute) and isinstance(t_.value, ast.Name) and t_.value.id == f.self_name \
+                                and t_.attr == attr:
+                            return True
+    return False
+
+
+def check_no_shared_class_state(c: Check, rule: str, prefixes, floor: int, what: str) -> None:
+    from ..report import VERIF_ROOT
+    import os
+    ix = c.ix
+    mods = [ix.module(n) for n in ix.all_module_names() if any(n == p or n.startswith(p + '.') for p in prefixes)]
+    n, hits = shared_class_state_writes(ix, mods)
+    for relpath, line, fkey, cont in hits:
+        c.bad(rule, 'shared-class-state/%s/%s' % (fkey, cont),
+              '%s changes %s, a container bound in the class body: it is one object for all instances for the life of '
+              'the process (%s)' % (fkey.split(':')[-1], cont, what), '%s:%d' % (relpath, line))
+    if not hits:
+        c.ok(rule, 'shared-class-state/none', detail='%d classes: no method writes a class-level container' % n)
+    c.floor(rule, 'classes scanned for shared class-level state', n, floor)
+    fx = Index(os.path.join(VERIF_ROOT, 'fixtures', 'evaluators'))
+    fm = fx.module('exactly_lib.impls.fixture_class_state')
+    _, got = shared_class_state_writes(fx, [fm])
+    want = sorted(i + 1 for i, line in enumerate(fm.src.splitlines()) if '# EXPECT shared' in line)
+    if sorted(h[1] for h in got) != want:
+        raise AnalysisError('%s: positive control of shared-class-state failed: reported lines %s, expected %s' % (
+            rule, sorted(h[1] for h in got), want))
